@@ -78,14 +78,14 @@ def valid(v, n):
     return z3.And(0 <= n, n < v.K)
 
 
-def inv(v, exempt=None, cache=True):
+def inv(v, exempt=None, cache=True, allow_empty=False):
     """All clauses of the invariant. `exempt` (an Int term or None): the node that is currently being
     given successors; the per-node clauses I-stub / I-norm / I-cache are not required of it."""
     N = net(v)
     D = M.TDict(TInt, TInt)
     ex = (lambda n: n != exempt) if exempt is not None else (lambda n: z3.BoolVal(True))
     cl = [
-        ("I-ids", v.K >= 1),
+        ("I-ids", v.K >= (0 if allow_empty else 1)),
         ("I-net", net_of(v.sym) == N),
         ("I-key.fwd", z3.ForAll([i], z3.Implies(valid(v, i), z3.And(
             D.dom(v.index)[T.SKey(N, v.space[i])], D.vals(v.index)[T.SKey(N, v.space[i])] == i)))),
@@ -95,7 +95,8 @@ def inv(v, exempt=None, cache=True):
         ("I-space", z3.ForAll([i], z3.Implies(valid(v, i), z3.And(
             T.wf_space(v.space[i]), T.dom_within(v.space[i], N), T.IsTrap(N, v.space[i]),
             T.Perc(N, v.space[i]) == v.space[i])))),
-        ("I-root", v.space[0] == T.Perc(N, z3.K(Name, z3.IntVal(-1)))),
+        ("I-root", z3.Implies(v.K >= 1, v.space[0] == T.Perc(N, z3.K(Name, z3.IntVal(-1)))) if allow_empty
+         else v.space[0] == T.Perc(N, z3.K(Name, z3.IntVal(-1)))),
         ("I-edge.rank", z3.ForAll([i, j], z3.Implies(v.edge[i][j], z3.And(
             valid(v, i), valid(v, j), T.card(v.space[i]) < T.card(v.space[j]))))),
         ("I-stub", z3.ForAll([i], z3.Implies(z3.And(valid(v, i), ex(i), z3.Not(v.expanded[i])),
@@ -126,8 +127,8 @@ def inv(v, exempt=None, cache=True):
     return cl
 
 
-def inv_all(v, exempt=None):
-    return z3.And([g for _, g in inv(v, exempt)])
+def inv_all(v, exempt=None, allow_empty=False):
+    return z3.And([g for _, g in inv(v, exempt, allow_empty=allow_empty)])
 
 
 def frame_nodes(v, o, except_ids=(), fields=("space", "expanded", "skipped", "parent", "cand", "seeds", "sets", "ppn", "pbn", "pnfvs", "succsig", "depth")):
@@ -181,7 +182,13 @@ def schema_lemmas():
         st = E.State()
         return M.View(E.HeapObj("SD", M.fresh_fields(None, st, nm)))
     a, b, c = fresh("va"), fresh("vb"), fresh("vc")
-    return {"S.ext_transitive": ext_trans(a, b, c)}
+    out = {"S.ext_transitive": ext_trans(a, b, c)}
+    for nm, mk in EXTRA_SCHEMAS.items():
+        out[nm] = mk(fresh)
+    return out
+
+
+EXTRA_SCHEMAS = {}      # name -> callable(fresh_view) -> formula | (formula, axioms); filled by the contract modules
 
 
 # ---------------------------------------------------------------------- skip nodes
